@@ -182,7 +182,7 @@ Decide(o, p, K, f, s, r, why, e) ==
 \* Quick tier (one TLC invocation): three sources only for the list operators with distinct code paths and
 \* without take; dispose instants only without take, over at most two sources / one run timeline and one count.
 SlimOK(o, p, ss, c, d) ==
-  /\ (Len(ss) >= 3) => (o \in {"concat", "for_in", "catch", "oern"} /\ c = 0 /\ d = NEVER)
+  /\ (Len(ss) >= 3) => (o \in {"concat", "for_in", "catch", "oern"} /\ (c = 0 \/ o = "concat") /\ d = NEVER)
   /\ (d # NEVER) => /\ c = 0
                     /\ (o \in RunOps => Len(ss) = 1)
                     /\ (o \in {"repeat", "retry"} => p.n = 2)
